@@ -153,47 +153,80 @@ func bmwExecutor(r *bReq, chain []bmwStage, log *bmwLog) *kmipserver.BatchExecut
 }
 
 // bmwPredict: an independent straight-line statement of what must happen — per item the status it leaves the chain
-// with, whether its handler runs, which stages are entered.
-func bmwPredict(r *bReq, chain []bmwStage) (failed []bool, calls []int, enter [][]int, processed []bool) {
+// with, whether its handler runs, which stages are entered, and what the handlers read (C15: the placeholder is
+// cleared by handleBatchItemError — that is when an error comes OUT of the chain, or when executeItem recovers a
+// handler panic — and by the last-resort recovery; an error swallowed by a masking stage clears nothing).
+func bmwPredict(r *bReq, chain []bmwStage) (failed []bool, calls []int, enter [][]int, obs []obsEv) {
 	n := len(r.items)
-	failed, processed, enter = make([]bool, n), make([]bool, n), make([][]int, len(chain))
+	failed, enter = make([]bool, n), make([][]int, len(chain))
+	type out struct{ failedResp, err, unwinding bool }
 	stopped := false
+	cur := 0
 	for i := range r.items {
 		it := &r.items[i]
 		if stopped {
 			failed[i] = true
 			continue
 		}
-		processed[i] = true
-		var eval func(k int) (failed, unwinding bool) // unwinding: a panic is on its way out (nothing masks it)
-		eval = func(k int) (bool, bool) {
+		var eval func(k int) out
+		eval = func(k int) out {
 			if k == len(chain) {
-				if r.reachesHandler(it) {
-					calls = append(calls, i)
-					return r.itemFails(it), r.poisonPanic(i)
+				switch {
+				case it.ext == 'c':
+					return out{err: true}
+				case !r.routed(it.op):
+					return out{err: !it.disc}
 				}
-				return r.itemFails(it), false
+				calls = append(calls, i)
+				for _, a := range it.acts {
+					switch a.kind {
+					case 'r':
+						obs = append(obs, obsEv{i, cur})
+					case 's':
+						cur = a.v
+					case 'c':
+						cur = 0
+					}
+				}
+				switch it.out {
+				case "ok":
+					return out{}
+				case "e", "x":
+					return out{err: true} // returned, not rendered yet
+				}
+				cur = 0 // the recovery of executeItem calls handleBatchItemError, which clears first
+				return out{failedResp: true, unwinding: r.poisonPanic(i)}
 			}
 			enter[k] = append(enter[k], i)
 			st := chain[k]
-			switch {
-			case st.kind == 'R' && st.set[i]:
-				return true, false
-			case st.kind == 'P' && st.set[i]:
-				return true, true
-			case st.kind == 'M' && st.set[i]:
-				_, unw := eval(k + 1)
-				return unw, unw
-			case st.kind == 'E' && st.set[i]:
-				_, unw := eval(k + 1)
-				return true, unw
-			case st.kind == 'Q' && st.set[i]:
-				eval(k + 1)
-				return true, true
+			if !st.set[i] || st.kind == 'T' {
+				return eval(k + 1)
 			}
-			return eval(k + 1)
+			switch st.kind {
+			case 'R':
+				return out{err: true}
+			case 'P':
+				return out{failedResp: true, unwinding: true}
+			}
+			x := eval(k + 1)
+			if x.unwinding {
+				return x
+			}
+			switch st.kind {
+			case 'M':
+				return out{}
+			case 'E':
+				return out{failedResp: x.failedResp, err: true}
+			case 'Q':
+				return out{failedResp: true, unwinding: true}
+			}
+			return x
 		}
-		failed[i], _ = eval(0)
+		x := eval(0)
+		failed[i] = x.failedResp || x.err || x.unwinding
+		if x.err || x.unwinding {
+			cur = 0
+		}
 		if failed[i] && r.opt == uint32(kmip.BatchErrorContinuationOptionStop) {
 			stopped = true
 		}
@@ -219,7 +252,7 @@ func bmwCase(ctx *Ctx, r *bReq, chain []bmwStage, origin string) {
 			break
 		}
 	}
-	impl := ""
+	impl, implObs := "", "ok obs=-"
 	ctx.current = line
 	viol := func(oracle, key, detail string) {
 		ctx.Res.Violate(report.Violation{Property: "C09", Oracle: oracle, Key: "batch.mw:" + key, Detail: detail, Line: line})
@@ -274,7 +307,30 @@ func bmwCase(ctx *Ctx, r *bReq, chain []bmwStage, origin string) {
 			viol("one-per-item", "shape", fmt.Sprintf("%d items, count %d, version %s for %d request items", len(resp.BatchItem), resp.Header.BatchCount, verStr(resp.Header.ProtocolVersion), n))
 			break
 		}
-		wantFailed, wantCalls, wantEnter, _ := bmwPredict(r, chain)
+		wantFailed, wantCalls, wantEnter, wantObs := bmwPredict(r, chain)
+		if renderObs(st.obs) != renderObs(wantObs) {
+			key := "place.mw:wrong-value"
+			if renderObs(st.obs) != renderObs(soloFrom(r, 0, true)) && len(st.obs) == len(wantObs) {
+				own := true // only values of this request: the scoping is intact, the clearing differs
+				for _, o := range st.obs {
+					ok := o.val == 0
+					for _, it := range r.items {
+						for _, a := range it.acts {
+							ok = ok || (a.kind == 's' && a.v == o.val)
+						}
+					}
+					own = own && ok
+				}
+				if own {
+					key = "place.mw:not-cleared-after-failed-item"
+				}
+			}
+			ctx.Res.Violate(report.Violation{Property: "C15", Oracle: "placeholder-under-item-middlewares", Key: key,
+				Detail: fmt.Sprintf("with item middlewares %s the handlers read %s, expected %s (round %d)", bmwRenderChain(chain), renderObs(st.obs), renderObs(wantObs), round), Line: line})
+		}
+		if round == 0 {
+			implObs = "ok obs=" + renderObs(st.obs)
+		}
 		for i := range r.items {
 			if resp.BatchItem[i].Operation != msg.BatchItem[i].Operation || !bytes.Equal(resp.BatchItem[i].UniqueBatchItemID, msg.BatchItem[i].UniqueBatchItemID) {
 				viol("echo", "not-echoed", fmt.Sprintf("item %d: operation/id %d/%x answered with %d/%x", i, msg.BatchItem[i].Operation, msg.BatchItem[i].UniqueBatchItemID, resp.BatchItem[i].Operation, resp.BatchItem[i].UniqueBatchItemID))
@@ -315,6 +371,10 @@ func bmwCase(ctx *Ctx, r *bReq, chain []bmwStage, origin string) {
 		}
 	}
 	ctx.Add(line, impl, len(r.items) > 1, "C09")
+	// C15 under item middlewares: what the handlers read (a line of its own, like place.obs)
+	if !strings.HasPrefix(impl, "panic") {
+		ctx.Add(strings.Replace(line, "batch.mw ", "place.mw ", 1), implObs, implObs != "ok obs=-", "C15")
+	}
 	if origin != "" {
 		ctx.Res.Count("batch.mw." + origin)
 	}
